@@ -904,6 +904,9 @@ def _check_update_labels(ctx):
         s = strip_conv(term)
         return s == ("param", pname)
 
+    # ... and not through a narrowing conversion on the way (the clause of
+    # tdc itself, applied to the wrapper that feeds it)
+    _check_no_precision_loss(ctx, f, p_scores)
     ctx.check(root_is(bound.get(formals[0], ("const", None)), p_scores),
               "C01d-pass-scores", f, "scores handed to tdc unchanged",
               f"tdc receives {show(bound.get(formals[0]), 100)} as scores",
